@@ -140,7 +140,7 @@ Init == /\ apis \in SUBSET Apis /\ rules \in RuleSets /\ own \in BOOLEAN /\ lega
         /\ ~(own /\ legacy)
         /\ transports \in TransportSets
         /\ (Scope = "thorough" => ThoroughOk)
-        /\ tmpl \in (IF Scope \in {"small", "quick"} THEN {"default"} ELSE {"default", "ads"})
+        /\ tmpl \in (IF Scope = "small" THEN {"default"} ELSE {"default", "ads"})
         /\ (tmpl = "ads" => AdsOk)
         /\ clients \in {{"sync"}, {"sync", "asyncio"}}
         /\ phase = "generated" /\ exposed = [c \in {"sync", "asyncio"} |-> {}] /\ call = NoCall
